@@ -28,6 +28,8 @@ def scenario_of(seg):
             return l["ms"]
         if l.get("a") == "Persist":
             return [{"item": "persist", "t": -2, "v": 0}]
+        if l.get("a") == "Notice":
+            return [{"item": l.get("item"), "t": -3, "v": 0}]
         return [{"item": l.get("item"), "t": -1, "v": 0}]
     # explicit: the store / restore points are part of the recorded scenario (the driver adds none of its own)
     return {"steps": [step(l) for l in seg[1:]], "explicit": True}
@@ -47,6 +49,10 @@ def validate(ctx, trace_path, via, label):
         if line.get("a") == "Persist":
             ctx.violation("persist:" + "+".join(tags), "storing and restoring the instrument states (serde round trip) changed the exchange-reported data held: %s -> %s [%s line %d]" % (
                 json.dumps(pre), json.dumps(line["post"]), label, b), {"via": via, "scenario": scenario_of(seg)})
+            continue
+        if line.get("a") == "Notice":
+            ctx.violation("notice:" + "+".join(tags), "a disconnect notice of the link of %s changed the exchange-reported data held: %s -> %s [%s line %d]" % (
+                line.get("item"), json.dumps(pre), json.dumps(line["post"]), label, b), {"via": via, "scenario": scenario_of(seg)})
             continue
         if line.get("a") == "Touch":
             ctx.violation("touch:" + "+".join(tags), "recording a cancel request for %s changed the exchange-reported data held: %s -> %s [%s line %d]" % (
